@@ -86,6 +86,7 @@ int32_t jls_rd_open(struct jls_rd_s ** instance, const char * path) {
     if (rc && (rc != JLS_ERROR_TRUNCATED)) {
         goto exit;
     }
+    bool file_header_open = (rc == JLS_ERROR_TRUNCATED);  // file header length still 0
 
     GOE(jls_core_scan_initial(core));
     GOE(jls_core_scan_sources(core));
@@ -146,6 +147,16 @@ int32_t jls_rd_open(struct jls_rd_s ** instance, const char * path) {
 
         GOE(jls_core_wr_end(core));
         GOE(jls_raw_close(core->raw));
+        GOE(jls_raw_open(&core->raw, path, "r"));
+    } else if (file_header_open) {
+        // the END chunk was written but the file header was not finalized: record the file length
+        JLS_LOGW("file header not finalized");
+        GOE(jls_raw_close(core->raw));
+        rc = jls_raw_open(&core->raw, path, "a");
+        if (rc && (rc != JLS_ERROR_TRUNCATED)) {
+            goto exit;
+        }
+        GOE(jls_raw_close(core->raw));  // writes the file header
         GOE(jls_raw_open(&core->raw, path, "r"));
     }
 
